@@ -171,7 +171,7 @@ pub fn overlap_strategy() -> proptest::strategy::BoxedStrategy<Scenario> {
         .prop_map(|(recipient_ok, drain_parts, outcome, failed_parts, (hk, hm, pending_parts, long_tick), tail, seed, amountless, mpp)| {
             let hold = (hk, hm);
             let cfg = Cfg { mpp_timeout_s: mpp, ..Cfg::default() };
-            let pay = PaymentSpec { preimage: 0x11, invoice_amount: if amountless { None } else { Some(1_000_000) }, tlv_amount: 1_000_000, hints: Hints::None, explicit_payee: false, recipient_ok, drain_parts };
+            let pay = PaymentSpec { preimage_hi: 0, preimage: 0x11, invoice_amount: if amountless { None } else { Some(1_000_000) }, tlv_amount: 1_000_000, hints: Hints::None, explicit_payee: false, recipient_ok, drain_parts };
             let need = needed_total(&cfg, 1_000_000);
             let h = |exp: u32| HtlcSpec { pay: 0, hash_of: None, amount_msat: need, total_msat: Some(need), forward_msat: Some(need), cltv_expiry: 1000 + 1100 + exp, cltv_rel: 1100, forward: false, meta: Meta::Normal, extra: vec![], raw_payload: None };
             let mut steps = vec![Step::Deliver(0), Step::Flush];
@@ -207,7 +207,7 @@ pub fn after_failed_attempts_strategy() -> proptest::strategy::BoxedStrategy<Sce
     (1usize..=3, 1usize..=2, any::<bool>(), proptest::sample::select(&[5u64, 10, 30, 60][..]), any::<u64>(), 0u8..3, proptest::collection::vec(prop_oneof![3 => Just(0u8), 1 => 1u8..=14], 6))
         .prop_map(|(failed_attempts, partial_parts, amountless, mpp, seed, drain_parts, ticks)| {
             let cfg = Cfg { mpp_timeout_s: mpp, ..Cfg::default() };
-            let pay = PaymentSpec { preimage: 0x11, invoice_amount: if amountless { None } else { Some(1_000_000) }, tlv_amount: 1_000_000, hints: Hints::None, explicit_payee: false, recipient_ok: false, drain_parts };
+            let pay = PaymentSpec { preimage_hi: 0, preimage: 0x11, invoice_amount: if amountless { None } else { Some(1_000_000) }, tlv_amount: 1_000_000, hints: Hints::None, explicit_payee: false, recipient_ok: false, drain_parts };
             let need = needed_total(&cfg, 1_000_000);
             let h = |amount: u64, total: u64| HtlcSpec { pay: 0, hash_of: None, amount_msat: amount, total_msat: Some(total), forward_msat: Some(amount), cltv_expiry: 1000 + 1100, cltv_rel: 1100, forward: false, meta: Meta::Normal, extra: vec![], raw_payload: None };
             let mut htlcs = vec![];
@@ -254,6 +254,10 @@ pub fn run_world_check(c: WorldCheck, tier: Tier, seed: u64) -> i32 {
         use proptest::strategy::Strategy;
         // in half of the histories the failure-notification service (e-mail) never returns
         s.search("world-after-failed-attempts", "world", tier.pick(150, 3000), || (after_failed_attempts_strategy(), proptest::bool::ANY).prop_map(|(mut x, st)| { x.notif_stall = st; x }), &case);
+    }
+    if matches!(c.prop, "C05" | "C08") {
+        // everything main() does at startup, on a datastore that earlier runs filled
+        crate::e2e::paid_earlier_e2e(&mut s, c.prop);
     }
     if c.prop == "C02" {
         // replay onto an in-flight payment through the binary, with the notifications the plugin subscribed to
@@ -324,6 +328,9 @@ pub fn run_world_check(c: WorldCheck, tier: Tier, seed: u64) -> i32 {
         // the stored-state read alone fails (an RPC error is not "nothing stored"): crashes onto Pending records + failing listdatastore
         let p = Profile { ds_read_faults: true, w_crash: 8, ..c.profile.clone() };
         s.search("world-state-read-faults", "world", tier.pick(150, 3000), move || scenario_strategy(p.clone()), &case);
+    }
+    if matches!(c.prop, "C01" | "C05") {
+        crate::props::par::many_phase(&mut s);
     }
     if matches!(c.prop, "C02" | "C05" | "C07" | "C11") {
         crate::props::par::par_phase(&mut s, c.prop);
